@@ -18,3 +18,23 @@ Proof. intros. unfold push_code, append_code. rewrite <- app_assoc. reflexivity.
 Theorem C14_rename_keeps_instructions : forall n i,
   renames_operand (i_mn i) = false -> rename_line n (Ins i) = Ins i.
 Proof. intros n i H. unfold rename_line. rewrite H. reflexivity. Qed.
+
+From CC Require Import Model.CbSpec Model.WfCode Proofs.InlineFacts.
+
+(** labels of the inlined body are exactly the suffixed labels; its branch targets likewise *)
+Theorem C14_rename_labels : forall n c, all_labels (map (rename_line n) c) = map (suffix_of n) (all_labels c).
+Proof. exact rename_labels. Qed.
+Theorem C14_rename_targets : forall n c, local_targets (map (rename_line n) c) = map (suffix_of n) (local_targets c).
+Proof. exact rename_targets. Qed.
+
+(** the renaming is injective: two expansions (any counters, nested or not) never share a label *)
+Theorem C14_suffix_inj : forall n1 n2 l1 l2,
+  suffix_of n1 l1 = suffix_of n2 l2 -> n1 = n2 /\ l1 = l2.
+Proof. exact suffix_of_inj. Qed.
+
+(** control flow of the inlined body stays inside the block; its return lands on the exit label *)
+Theorem C14_push_code_closed : forall (dst body : code) (n : N),
+  (forall t, In t (local_targets body) -> In t (all_labels body) \/ t = ".endof"%string) ->
+  forall t, In t (local_targets (map (rename_line n) body)) ->
+            In t (all_labels (map (rename_line n) body ++ [Lbl (".endofinline" ++ string_of_N n)%string])).
+Proof. exact push_code_closed. Qed.
